@@ -83,6 +83,7 @@ func runC10(l *core.Ledger) {
 	c10N6(l, r)
 	l.Rule("C10-N7", "the stream is marked broken only while it is the current one and only on transport errors (C09-W8, C09-W6 re-run): a flag set after the other goroutine restored the stream makes the sender replace a healthy stream - the reader stays parked on the replaced one and the node's replies are never read, and the server's connect callback runs for streams nobody reads")
 	l.With(map[string]string{"C09-W6": "C10-N7", "C09-W8": "C10-N7"}, func() { c09W6(l, r) })
+	l.Rule("C10-N9", "the reader fails the calls of the stream that failed, not the calls already written to a stream re-created meanwhile: the fail-all routine is told (or finds out) which stream a pending request was written to")
 	c10N8(l, r)
 	c10N1(l, r)
 	c10N2(l, r)
@@ -878,6 +879,29 @@ func c10N6(l *core.Ledger, r *rt) {
 				}
 			})
 			ok := f == top && edgesDominate(top, errEdges, sx.NodeOf(in))
+			if ok {
+				// N9: which calls are failed. The reader compares the stream it read from with the
+				// current one before it marks the channel broken (the sender may have replaced it
+				// meanwhile); the routine that fails the pending calls has no notion of the stream
+				// a request was written to
+				perStream := false
+				callee := cc.StaticCallee()
+				sx.AllInstrs(callee, func(_ sx.Node, x ssa.Instruction) {
+					if b, isB := x.(*ssa.BinOp); isB && (b.Op == token.EQL || b.Op == token.NEQ) {
+						for _, v := range []ssa.Value{b.X, b.Y} {
+							if sx.Any(sx.Origins(v), func(o sx.Origin) bool {
+								return o.Kind == sx.KField && o.Field != nil && (o.Field.Name() == "gorumsStream" || strings.Contains(strings.ToLower(o.Field.Name()), "stream") || strings.Contains(strings.ToLower(o.Field.Name()), "generation") || strings.Contains(strings.ToLower(o.Field.Name()), "epoch"))
+							}) {
+								perStream = true
+							}
+						}
+					}
+				})
+				if len(callee.Params) > 1 {
+					perStream = true // told which stream failed
+				}
+				l.Check(perStream, "C10-N9", fnKey(top)+"/fail-all-per-stream", sx.PosOf(in), "only the calls written to the failed stream are failed", "after a read error the reader fails every pending call of the node, also the calls whose requests the sender has meanwhile written to a stream it re-created: when the reader reacts late (the sender notices the failure, re-creates the stream and sends the next request first), a call whose request the restarted server has handled and answered is told 'stream is down', and its reply finds no router")
+			}
 			if !ok && f == top {
 				// the reader's last act: the node's own context has ended (Close) and the
 				// reader returns without reading again - there is no reconnection any more
